@@ -149,6 +149,16 @@ func (l *ledger) send() {
 	if sp.Token == nil && sp.Call.Kind == "" {
 		sp.Call = s.CallTo(sp.Dst, "counter")
 	}
+	// a sender-side acknowledgement callback: one that runs, or one that reverts (the acknowledgement transaction then fails as a
+	// whole and the transfer stays in flight; it must not end "acknowledged, neither delivered nor refunded")
+	switch s.Rng.Intn(6) {
+	case 0:
+		sp.Callback = s.Contracts[sp.Src.Name]["counter"]
+		kind += "+callback"
+	case 1, 2:
+		sp.Callback = s.Contracts[sp.Src.Name]["reverter"]
+		kind += "+reverting-callback"
+	}
 	// balances of the sender before
 	var tokAddr common.Address
 	var before *big.Int
